@@ -672,6 +672,189 @@ def check_nullable_args(ctx, funcs: typing.Iterable[FuncInfo], rule="NUL-arg", e
   return n
 
 
+# NUL-optarg -----------------------------------------------------------------------------
+def optional_fields(ix) -> typing.Dict[str, str]:
+  """Attribute names that every `__init__` of the package which stores them fills straight from a parameter
+  annotated `Optional[..]`: the field is None whenever the producer had nothing to put there."""
+  by_attr: typing.Dict[str, typing.List[typing.Optional[str]]] = {}
+  for f in ix.funcs.values():
+    if f.cls is None or f.name != "__init__":
+      continue
+    a = f.node.args
+    ann = {x.arg: x.annotation for x in a.posonlyargs + a.args + a.kwonlyargs}
+    for st in own_nodes(f.node):
+      if not isinstance(st, (ast.Assign, ast.AnnAssign)) or st.value is None:
+        continue
+      for t in (st.targets if isinstance(st, ast.Assign) else [st.target]):
+        if isinstance(t, ast.Attribute) and isinstance(t.value, ast.Name) and t.value.id == "self":
+          v = st.value
+          why = None
+          if isinstance(v, ast.Name) and ann.get(v.id) is not None and "Optional[" in unparse(ann[v.id]):
+            why = f"{f.cls.name}.{t.attr} is filled from the parameter `{v.id}: {unparse(ann[v.id])}`"
+          by_attr.setdefault(t.attr, []).append(why)
+  out = {k: next(w for w in v if w) for k, v in by_attr.items() if v and all(v)}
+  # keep the fields for which the package itself produces None: a constructor call by class name that leaves the
+  # parameter out (default None) or passes the literal None
+  produced = {}
+  for f in ix.funcs.values():
+    if f.cls is None or f.name != "__init__":
+      continue
+    a = f.node.args
+    pos = [x.arg for x in a.posonlyargs + a.args][1:]
+    ndef = len(a.defaults)
+    defaults = dict(zip(pos[len(pos) - ndef:], a.defaults)) if ndef else {}
+    for st in own_nodes(f.node):
+      if isinstance(st, ast.Assign) and isinstance(st.value, ast.Name) and st.value.id in pos:
+        for t in st.targets:
+          if isinstance(t, ast.Attribute) and isinstance(t.value, ast.Name) and t.value.id == "self" and t.attr in out:
+            produced.setdefault(f.cls.name, []).append((t.attr, st.value.id, pos.index(st.value.id), defaults.get(st.value.id)))
+  keep = {}
+  for m in ix.modules.values():
+    for c in ast.walk(m.tree):
+      if not (isinstance(c, ast.Call) and ((isinstance(c.func, ast.Name) and c.func.id in produced) or (isinstance(c.func, ast.Attribute) and c.func.attr in produced))):
+        continue
+      cname = c.func.id if isinstance(c.func, ast.Name) else c.func.attr
+      if any(isinstance(x, ast.Starred) for x in c.args) or any(k.arg is None for k in c.keywords):
+        continue
+      for (attr, par, idx, dflt) in produced[cname]:
+        given = c.args[idx] if idx < len(c.args) else next((k.value for k in c.keywords if k.arg == par), None)
+        if (given is None and isinstance(dflt, ast.Constant) and dflt.value is None) or (isinstance(given, ast.Constant) and given.value is None):
+          keep[attr] = out[attr] + f"; `{short(c, 50)}` at {m.name}:{c.lineno} leaves it None"
+  return keep
+
+
+def _rejects_none(g: FuncInfo, p: str) -> typing.Optional[ast.AST]:
+  """`if not isinstance(p, T): raise ..` (None not among T) at the top level of g before `p` is re-bound."""
+  for st in g.node.body:
+    if isinstance(st, (ast.Assign, ast.AugAssign, ast.AnnAssign)) and any(isinstance(n, ast.Name) and n.id == p and isinstance(n.ctx, ast.Store) for n in ast.walk(st)):
+      return None
+    if isinstance(st, ast.If) and st.body and isinstance(st.body[0], ast.Raise):
+      t = st.test
+      if isinstance(t, ast.UnaryOp) and isinstance(t.op, ast.Not) and isinstance(t.operand, ast.Call) and isinstance(t.operand.func, ast.Name) \
+          and t.operand.func.id == "isinstance" and len(t.operand.args) == 2 and isinstance(t.operand.args[0], ast.Name) and t.operand.args[0].id == p:
+        types = unparse(t.operand.args[1])
+        if "None" not in types:
+          return st
+  return None
+
+
+def check_optional_field_args(ctx, funcs: typing.Iterable[FuncInfo], rule="NUL-optarg"):
+  """`g(.., x.field, ..)` where `field` is an Optional field of a record of the package (see optional_fields), with no
+  None test of `x.field` dominating the call: no implementation of g may dereference that parameter unguarded or
+  reject a non-instance with an exception."""
+  from ..cfg import CFG, fact_holds_at
+  from .match import is_none_test
+  ix = ctx.ix
+  fields = optional_fields(ix)
+  by_name: typing.Dict[str, typing.List[FuncInfo]] = {}
+  for g in ix.funcs.values():
+    by_name.setdefault(g.name, []).append(g)
+  n = 0
+  cache = {}
+  typer = None
+  for f in funcs:
+    cfg = None
+    for c in own_nodes(f.node):
+      if not isinstance(c, ast.Call):
+        continue
+      for i, a in enumerate(c.args):
+        if not (isinstance(a, ast.Attribute) and a.attr in fields and isinstance(a.ctx, ast.Load)):
+          continue
+        if isinstance(a.value, ast.Name) and a.value.id == "self" and f.cls is not None and f.name == "__init__":
+          continue
+        txt = unparse(a)
+
+        def establishes(test, pol, txt=txt):
+          parts = [test]
+          if isinstance(test, ast.BoolOp) and ((isinstance(test.op, ast.And) and pol) or (isinstance(test.op, ast.Or) and not pol)):
+            parts = test.values
+          for t in parts:
+            isn = is_none_test(t, lambda x: unparse(x) == txt)
+            if isn is not None and isn != pol:
+              return True
+            if unparse(t) == txt and pol:
+              return True
+            if isinstance(t, ast.UnaryOp) and isinstance(t.op, ast.Not) and unparse(t.operand) == txt and not pol:
+              return True
+            if isinstance(t, ast.Call) and isinstance(t.func, ast.Name) and t.func.id == "isinstance" and t.args and unparse(t.args[0]) == txt and pol:
+              return True
+          return False
+        chain_ok = False
+        p_ = parent(a)
+        while p_ is not None and p_ is not f.node:
+          if isinstance(p_, ast.BoolOp) and isinstance(p_.op, ast.And):
+            idx = next((k for k, v in enumerate(p_.values) if any(x is a for x in ast.walk(v))), None)
+            if idx is not None and any(establishes(v, True) for v in p_.values[:idx]):
+              chain_ok = True
+          if isinstance(p_, ast.IfExp) and any(x is a for x in ast.walk(p_.body)) and establishes(p_.test, True):
+            chain_ok = True
+          if isinstance(p_, ast.IfExp) and any(x is a for x in ast.walk(p_.orelse)) and establishes(p_.test, False):
+            chain_ok = True
+          p_ = parent(p_)
+        if cfg is None:
+          cfg = CFG(f.node)
+        try:
+          nid = cfg.stmt_node_containing(c)
+        except Exception:
+          nid = None
+        n += 1
+        if chain_ok or (nid is not None and fact_holds_at(cfg, nid, establishes)):
+          continue
+        callees = []
+        r = ix.resolve(f.module, c.func, cls=f.cls, func=f)
+        if isinstance(r, FuncInfo):
+          callees = [r]
+        elif isinstance(c.func, ast.Attribute):
+          callees = [g for g in by_name.get(c.func.attr, []) if g.cls is not None]
+          # a receiver that is a local bound only to instances of known classes narrows the candidates to their methods
+          recv = c.func.value
+          if isinstance(recv, ast.Name) and recv.id not in f.params:
+            if typer is None:
+              from ..typing_lite import Typer, strip_opt
+              typer = Typer(ix)
+            env = typer.env(f)
+            binds = [n_ for n_ in own_nodes(f.node) if isinstance(n_, (ast.Assign, ast.AnnAssign, ast.AugAssign, ast.For, ast.comprehension, ast.NamedExpr, ast.With))
+                     and any(isinstance(x, ast.Name) and x.id == recv.id and isinstance(x.ctx, ast.Store) for x in ast.walk(n_))]
+            types = []
+            for b in binds:
+              t = None
+              if isinstance(b, ast.Assign) and len(b.targets) == 1 and isinstance(b.targets[0], ast.Name):
+                from ..typing_lite import strip_opt
+                t = strip_opt(typer.expr_type(f.module, b.value, env, f.cls, f))
+              types.append(t)
+            if types and all(t is not None and t[0] == "inst" for t in types):
+              narrowed = []
+              for t in types:
+                g_ = ix.lookup_method(t[1], c.func.attr)
+                if g_ is not None and g_ not in narrowed:
+                  narrowed.append(g_)
+              if narrowed:
+                callees = narrowed
+        verdicts = []
+        for g in callees:
+          off = 1 if (g.cls is not None and not g.is_static) else 0
+          if isinstance(r, FuncInfo) and isinstance(c.func, ast.Name):
+            off = 0
+          if i + off >= len(g.params):
+            continue
+          p = g.params[i + off]
+          k = (g.qualname, p)
+          if k not in cache:
+            rej = _rejects_none(g, p)
+            der = None if rej is not None else (_param_derefs(g, p) or None)
+            cache[k] = (rej, der)
+          rej, der = cache[k]
+          verdicts.append((g, p, rej, der))
+        # without a resolved receiver the candidates are all methods of that name: report only when every one of them fails
+        if verdicts and all(rej is not None or der for (_g, _p, rej, der) in verdicts):
+          for (g, p, rej, der) in verdicts[:1]:
+            ctx.unit(f.module)
+            what = f"raises at `{short(rej, 50)}`" if rej is not None else f"evaluates `{short(der[0][0], 50)}` without a None test"
+            ctx.bad(rule, f"{f.qualname}|{short(c, 80)}", ctx.where(f.module, c),
+                    f"`{txt}` may be None ({fields[a.attr]}), no None test dominates the call, and it is passed as `{p}` to {g.short}, which {what}")
+  return n
+
+
 # NUL-known ----------------------------------------------------------------------------------
 def none_facts_from_test(e, pol: bool) -> typing.Set[str]:
   """Local names known to BE None when test `e` evaluates to `pol`."""
